@@ -85,6 +85,25 @@ SHORT = {
         "w = 'x'\nq1 = f\'\'\'{len('a\"b')} {\"it's\"!r} {w + '\"'}\'\'\'\nq2 = f\"{'say \\'hi\\''} {w!a}\"\nprint(q1, q2)\n"
     ),
     "plain_quotes": "s1 = 'say \"hi\"'\ns2 = \"it's\"\ns3 = 'both \\' and \"'\nd = {'k\"': \"v'\"}\nprint(s1, s2, s3, d)\n",
+    "rare_exprs": (
+        "w = 3\nd = {'a': 1}\ns = {1, 2, w}\nt = f\"{ {'k': w}['k']:>{w}} {d['a']:{'0'}{w}d} {s!r:{'<'}{10}}\"\n"
+        "f = lambda *, k=1, j: (k, j)\ng = lambda a, b=2, *, c=3: (a, b, c)\nh = lambda a=1, /, b=2: a + b\n"
+        "m = [[1, 2], [3, 4]]\nm[0][::2] *= 1\nz = (yield_ := 3)\nprint(t, f(j=2), g(1), h(), m, z, s - {1})\n"
+    ),
+    "rare_scopes": (
+        "g1 = 1\ndef outer(p, q):\n    class K:\n        global g1\n        g1 = p\n        r = [q for _ in range(2)]\n"
+        "        def m(self, d=q):\n            nonlocal p\n            p += d\n            return (lambda x=d: x + p)()\n"
+        "    for a, *b in [(1, 2, 3)]:\n        p += a\n    return K\nprint(outer(1, 2)().m(), g1)\n"
+    ),
+    "rare_class": (
+        "def deco(arg):\n    def wrap(fn):\n        fn.tag = arg\n        return fn\n    return wrap\nclass Base:\n"
+        "    def __init_subclass__(cls, /, flag=0, **kw):\n        super().__init_subclass__(**kw)\n        cls.flag = flag\n"
+        "class Child(Base, flag=7):\n    v = 2\n    @deco('t')\n    def m(self, k=v):\n        return (k, self.flag)\n"
+        "    @staticmethod\n    def s():\n        return 's'\n    @classmethod\n    def c(cls):\n        return cls.v\n"
+        "print = print\nprint(Child().m(), Child.s(), Child.c(), Child.m.tag)\n"
+    ),
+    "lambda_in_class": "class L:\n    v = 2\n    w = (lambda y=v: y * 2)()\nprint(L.w)\n",
+    "relative_imports": "from . import sibling\nfrom .. import parent as P\nfrom .pkg.mod import name1, name2 as n2\nimport a.b.c\nprint(sibling, P, name1, n2)\n",
     "global_decl": "g = 0\ndef f():\n    global g\n    g += 1\n    return g\nf()\nprint(g)\n",
     # --- classes -------------------------------------------------------------------
     "class_super": (
@@ -132,9 +151,25 @@ FAILING = {
     "fail_star2": "*a, *b = [1, 2]\n",
     "fail_with": "for i in range(3):\n    with open('x') as f:\n        pass\n",
     "fail_syntax": "def (:\n",
+    "fail_continue": "a = 1\nif a:\n    continue\n",
+    "fail_mid_expression": "data = [(1, [2, 3])]\nx = sorted([h for h, *rest in data], key=len)\ny = 2\n",
     "fail_deep_loop": "def f():\n    for i in range(3):\n        while i:\n            class K:\n                [q for q in range(3)]\n                del i\n",
     # far beyond the ~480 statement threshold: RecursionError under chain_call+ast.unparse
     "fail_big": "x = 0\n" * 2000,
+}
+
+
+# size-related programs (kept out of the depth knob and of the 'small' sets by their prefix)
+BIG = {
+    "long_identifiers": "%s = 1\ndef %s(%s):\n    def inner():\n        return %s + %s\n    return inner\nprint(%s(2)())\n" % (
+        "v" * 300, "f" * 260, "p" * 270, "p" * 270, "v" * 300, "f" * 260),
+    "long_string": "s = %r\nt = f'{s[:3]}%s{{}}'\nprint(len(s), len(t))\n" % ("ab'\"c\\" * 1200, "x" * 5000),
+    "big_ints": "a = %d\nb = -%d\nc = 0x%x\nd = 1e400\ne = %d.5\nprint(a, b, c, d, e)\n" % (2 ** 63, 2 ** 64 + 1, 2 ** 200, 2 ** 70),
+    "many_args": "def f(*a, **k):\n    return len(a) + len(k)\nprint(f(%s, %s))\n" % (
+        ", ".join(str(i) for i in range(260)), ", ".join("k%d=%d" % (i, i) for i in range(260))),
+    "many_names": "".join("n%d = %d\n" % (i, i) for i in range(130)) + "print(n0 + n129)\n",
+    "many_functions": "".join("def fn%d(a, b):\n    def g():\n        return a + b + %d\n    return g\n" % (i, i) for i in range(40)) + "print(fn0(1, 2)() + fn39(1, 2)())\n",
+    "deep_nesting": "x = 0\n" + "".join("%sif x == %d:\n" % ("    " * i, i) for i in range(18)) + "    " * 18 + "x += 1\n" + "print(x)\n",
 }
 
 
@@ -147,6 +182,8 @@ def load_pool() -> dict:
                 pool["file:" + name[:-3]] = f.read()
     for k in sorted(SHORT):
         pool["short:" + k] = SHORT[k]
+    for k in sorted(BIG):
+        pool["big:" + k] = BIG[k]
     for k in sorted(FAILING):
         pool["fail:" + k] = FAILING[k]
     return pool
